@@ -224,6 +224,9 @@ def reuse_drivers(chk, variant):
     for label, drv, items in sets:
         ref = run_batch(variant, drv, items, env={"VERIF_VTIME": "1", "VERIF_GC": "never"}, chunk=200, timeout=600)
         for spec in (["always", "period:3:1", "period:7:2"] if chk.quick else ["always"] + ["period:%d:%d" % (p, ph) for p in (2, 3, 5, 7) for ph in range(p)]):
+            if spec != "always" and chk.out_of_time(1.0):
+                chk.cap("reuse/%s: schedule %s not run (time budget)" % (label, spec))
+                continue
             got = run_batch(variant, drv, items, env={"VERIF_VTIME": "1", "VERIF_GC": spec}, chunk=200, timeout=900)
             for it, a, b in zip(items, ref, got):
                 chk.add(evaluations=1, transitions=1)
